@@ -222,6 +222,27 @@ def run(ctx):
     dtr = trace.validate(depisodes, "Trace_Diagram.tla", "Trace_Diagram.cfg")
     ufails = ufails + attach(dtr, dspecs, depisodes)
     meta["diagrams_with_unknown_component"] = sum(1 for ep in depisodes for e in ep if e["k"] == "deval")
+    # layer rules naming, among several object layers, one whose regex matches no module: a lookup error, never a verdict
+    from harness.checks import c05
+    lspecs = []
+    for _ in range(40 if ctx.quick else 600):
+        w = random_world(rng, n_modules=rng.randint(8, 20), n_imports=rng.randint(6, 40))
+        tops = c05.tops_of(w)
+        if len(tops) < 3:
+            continue
+        layers = c05.partitions(rng, tops, 3, kinds=rng.choice(["names", "regex", "mixed"]))
+        layers[2] = {"name": layers[2]["name"], "kind": "regex", "listed": [], "pat": r"r\.zz_matches_nothing.*"}
+        names = [l["name"] for l in layers]
+        items = []
+        for k, (v, d, x) in enumerate(c05.SHAPES):
+            objs = [names[1], names[2]] if k % 2 else [names[2], names[1]]
+            items.append({"op": "leval", "a": 0, "rid": f"N{k}", "layers": layers, "objs_as_list": True,
+                          "rule": {"verb": v, "dir": d, "exc": x, "any": False, "sub": names[0], "objs": objs}})
+        lspecs.append({"driver": "layers", "world": w.json(), "render": "ident", "items": items})
+    lepisodes = runner.run_specs(lspecs)
+    ltr = trace.validate(lepisodes, "Trace_Layers.tla", "Trace_Layers.cfg")
+    ufails = ufails + attach(ltr, lspecs, lepisodes)
+    meta["layer_rules_with_a_regex_layer_matching_nothing"] = sum(1 for ep in lepisodes for e in ep if e["k"] == "leval")
     # entry-point option combinations
     entry = [_entry_events(ctx, rng)]
     etr = trace.validate(entry, "Trace_Builders.tla", "Trace_Builders.cfg", procs=1)
@@ -262,6 +283,10 @@ def replay(ctx, rp):
         tr, episodes, fails = rc.run_and_validate([spec], procs=1)
     elif spec.get("driver") == "scan":
         tr, episodes, fails = sc.run_and_validate([spec], procs=1)
+    elif spec.get("driver") == "layers":
+        episodes = runner.run_specs([spec], 1)
+        tr = trace.validate(episodes, "Trace_Layers.tla", "Trace_Layers.cfg", procs=1)
+        fails = attach(tr, [spec], episodes)
     elif spec.get("driver") == "diagram":
         episodes = runner.run_specs([spec], 1)
         tr = trace.validate(episodes, "Trace_Diagram.tla", "Trace_Diagram.cfg", procs=1)
